@@ -235,7 +235,8 @@ class MemInterp(TriInterp):
                     base, name = fv.val
                     if getattr(base, "kind", None) in ("raw", "rawlist",
                                                        "rawpiece"):
-                        if name == "split":
+                        if name in ("split", "partition", "rpartition",
+                                    "rsplit"):
                             res.append((q, V("rawlist")))
                         elif name == "decode":
                             # bytes outside the codec raise
